@@ -870,6 +870,7 @@ INTRACTABLE = {
     ('par2', 'fil_map', 'collect_vec'), ('par2', 'map_fil_fil', 'collect_vec'), ('par2', 'map_fil_map', 'collect_vec'),
     ('par2', 'fmap_fil', 'collect'), ('seq', 'fmap_fil', 'collect'), ('seq', 'map', 'collect_x'), ('seq', 'map_fil', 'collect_x'),
     ('par2', 'flat_fil', 'collect_vec'), ('seq', 'flat_fil', 'collect_vec'),
+    ('seq', 'map', 'into_split_full'), ('seq', 'map_fil', 'into_split_full'), ('seq', 'empty', 'into_split_full'),  # 57 GB
 }
 # thorough tier: every chain with collect_vec, the eight base chains with every terminal
 BASE_CHAINS = ('empty', 'map', 'fil', 'map_fil', 'fmap', 'fmap_fil', 'flat', 'flat_fil')
@@ -1016,9 +1017,9 @@ use crate::{ChunkSize, NumThreads, Par, Params};
                 b.append('    kani::assume(cl.lt[0] == 0 && cl.lt[1] == 0 && cl.lt[2] == 0 && cl.lt[3] == 0);')
             b.append('    let p0 = any_params();')
             b.append('    let x = source(it, p0)%s;' % pc)
-            b.append('    assert!(x.params() == p0, "C12: params() does not report the values set on the source after building %s");' % typ)
+            b.append('    assert!(x.params() == p0, "C12,C16: params() does not report the values set on the source after building %s");' % typ)
             b.append('    let y = x%s;' % call)
-            b.append('    assert!(y.params() == p0, "C12: %s::%s altered the parameters");' % (typ, meth))
+            b.append('    assert!(y.params() == p0, "C12,C16: %s::%s altered the parameters");' % (typ, meth))
             b.append('    assert!(!log.any_call() && log.source_untouched(), "C16: %s::%s ran a user closure or consumed the source before the terminal call");' % (typ, meth))
             b.append('    kani::cover!(p0.num_threads != NumThreads::Auto && p0.chunk_size != ChunkSize::Auto);')
             b.append('}\n')
@@ -1043,12 +1044,12 @@ use crate::{ChunkSize, NumThreads, Par, Params};
             b.append('    let y = source(it, p0)%s.%s(a);' % (pc, meth))
             if meth == 'num_threads':
                 b.append('    let want = if a == 0 { NumThreads::Auto } else { NumThreads::Max(nz(a)) };')
-                b.append('    assert!(y.params().num_threads == want, "C12: %s::num_threads(n) must report Auto for 0 and Max(n) otherwise");' % typ)
-                b.append('    assert!(y.params().chunk_size == p0.chunk_size, "C12: %s::num_threads changed chunk_size");' % typ)
+                b.append('    assert!(y.params().num_threads == want, "C12,C16: %s::num_threads(n) must report Auto for 0 and Max(n) otherwise");' % typ)
+                b.append('    assert!(y.params().chunk_size == p0.chunk_size, "C12,C16: %s::num_threads changed chunk_size");' % typ)
             else:
                 b.append('    let want = if a == 0 { ChunkSize::Auto } else { ChunkSize::Exact(nz(a)) };')
-                b.append('    assert!(y.params().chunk_size == want, "C12: %s::chunk_size(c) must report Auto for 0 and Exact(c) otherwise");' % typ)
-                b.append('    assert!(y.params().num_threads == p0.num_threads, "C12: %s::chunk_size changed num_threads");' % typ)
+                b.append('    assert!(y.params().chunk_size == want, "C12,C16: %s::chunk_size(c) must report Auto for 0 and Exact(c) otherwise");' % typ)
+                b.append('    assert!(y.params().num_threads == p0.num_threads, "C12,C16: %s::chunk_size changed num_threads");' % typ)
             b.append('    assert!(y.params().is_sequential() == (y.params().num_threads == NumThreads::Max(nz(1))), "C12: is_sequential() must hold exactly for Max(1)");')
             b.append('    assert!(!log.any_call() && log.source_untouched(), "C16: %s::%s ran a user closure or consumed the source");' % (typ, meth))
             b.append('    kani::cover!(a == 0);')
@@ -1119,10 +1120,10 @@ def generate_all():
             HARNESSES[nm] = dict(kernel='settings', family='pair', props=pp, tier=('thorough' if nm in ('k_pair_calc_chunk_size', 'k_pair_next_chunk_size') else 'quick'), bounded=False,
                                  path='%s::vk_pair::%s' % (mod, nm), shape=dict(inputs='full-domain symbolic'), covers_expected=None, covers_min=0,
                                  bound='loop-free (find_chunk_size unrolled 22x with unwinding assertions: complete since the loop halves 2^20), full-domain symbolic inputs')
-    for nm, cov in (('k_drop_filter_collect_vec', 2), ('k_drop_find_early_exit', 2), ('k_drop_map_collect_vec_bag', 1)):
+    for nm, cov in (('k_drop_filter_collect_vec', 2), ('k_drop_find_early_exit', 2), ('k_drop_map_collect_vec_bag', 1), ('k_drop_real_merge_vec', 0), ('k_drop_real_merge_pinned_vec', 0)):
         HARNESSES[nm] = dict(kernel='api', family='drop', props=['C13'], tier=('thorough' if nm == 'k_drop_filter_collect_vec' else 'quick'), bounded=True,
                              path='core::verif_kani::h_drop::%s' % nm, shape=dict(source='Vec of 3 drop-counting items via the real ConIterOfVec', workers=1),
-                             covers_expected=cov,
+                             covers_expected=(cov if cov else None), covers_min=(None if cov else 0),
                              bound='3 owned items with drop counters, real ConIterOfVec source, one worker via the Runner contract, symbolic predicate tables')
     return out
 
